@@ -1262,6 +1262,10 @@ func (d *dealer) syncRemoveSession(sess *wamp.Session) []*wamp.Publish {
 		if errArgs == nil {
 			errArgs = wamp.List{"callee gone"}
 		}
+		// The call may have been canceled with mode "kill" and be waiting for
+		// the callee's response, which will now never arrive. Clear the flag
+		// so that syncCancel responds to the caller and removes the call.
+		invk.canceled = false
 		// Use CancelModeSkip so as not to send an INTERRUPT to a callee that
 		// is no longer there.
 		d.syncCancel(caller, &wamp.Cancel{Request: invk.callID.request},
